@@ -268,8 +268,8 @@ def classify_C13(case, failure):
 
 
 def classify_C17(case, failure):
-    if 'case_stmt' in case[0] and failure.get('what') == 'following-statement-swallowed':
-        return 'C17:production:casestmt@BODY'
+    # (the open C17 finding - a BEGIN..END block nested in a branch of a CASE statement - is a production obligation of the
+    # proof, key C17:production:block@BODYC; the bounded domain has no such script)
     return None
 
 
